@@ -88,6 +88,13 @@ Inv_C09_Exact == (Done /\ Op = "merge" /\ res.tag = "sig") => C09_Exact(Ips, res
 Inv_C09_RaiseIff == (Done /\ Op = "merge" /\ res.tag \in {"sig", "incompat"}) => C09_RaiseIff(Ips, res.tag = "incompat", CallsM)
 Inv_C02 == (Done /\ Op = "embed" /\ Arity = 2) => EmbedFails(regs, fl, res) = {}
 Inv_C03 == (Done /\ Op = "mask") => MaskFails(regs, fl, res) = {}
+(* the design of the hide flags (model level; the code is held to the model by the zero-drift comparison of the trace leg): whether mask raises is  *)
+(* decided by n and the names alone, and the flagged result is the unflagged one minus the kinds the flags name                                      *)
+Inv_C03_HideIsFilter == (Done /\ Op = "mask") =>
+    LET un == Mask(Sorted[1], fl.n, fl.names, FALSE, FALSE, FALSE, FALSE) IN
+    IF un.tag # "sig" THEN res.tag = un.tag
+    ELSE /\ res.tag = "sig"
+         /\ res.ps = SelectSeq(un.ps, LAMBDA q : ~HiddenKind(q, fl.ha, fl.hk, fl.hva, fl.hvk))
 Inv_C08_WF == (Done /\ res.tag = "sig") => SourcesWF(res) = {}
 Inv_C08_VsInputs == (Done /\ res.tag = "sig") => SourcesVsInputs(Op, regs, fl, res) = {}
 Inv_C15 == Done => C15Fails(Op, regs, res) = {}
